@@ -1942,6 +1942,8 @@ class Cluster(object):
                 with host.lock:
                     host.set_up()
                     host._currently_handling_node_up = False
+                for listener in self.listeners:
+                    listener.on_up(host)
 
         # for testing purposes
         return futures
